@@ -240,6 +240,11 @@ func RunC05(c *core.Ctx) {
 			}
 			// bit flips
 			for i := range wire {
+				// long messages (5 kB, 20 kB): every position of the first and last 96 bytes (headers, IV, tag, MAC live
+				// there) and a random sample of the ciphertext in between
+				if len(wire) > 2000 && i >= 96 && len(wire)-i > 96 && c.Rng.Intn(64) != 0 {
+					continue
+				}
 				bits := []int{c.Rng.Intn(8)}
 				if !c.Quick() {
 					bits = []int{0, 1, 2, 3, 4, 5, 6, 7}
